@@ -8,13 +8,13 @@ namespace GFO
 variable {σ : Type}
 
 /-- steps `i … k-1` were executed, and after each of them except possibly the last the stop check was false -/
-inductive Run (sp : Space) (obj : Obj) (c : Call) : Nat → Nat → DState σ → DState σ → CState → CState → Prop
-  | last {i d d1 cs cs1} : StepFrame sp obj c i d d1 cs cs1 → Run sp obj c i (i + 1) d d1 cs cs1
-  | cons {i k d d1 d' cs cs1 cs'} : StepFrame sp obj c i d d1 cs cs1 → checkStop c d1 cs1 = .ok false →
-      Run sp obj c (i + 1) k d1 d' cs1 cs' → Run sp obj c i k d d' cs cs'
+inductive Run (b : Backend σ) (sp : Space) (obj : Obj) (c : Call) : Nat → Nat → DState σ → DState σ → CState → CState → Prop
+  | last {i d d1 cs cs1} : StepFrame b sp obj c i d d1 cs cs1 → Run b sp obj c i (i + 1) d d1 cs cs1
+  | cons {i k d d1 d' cs cs1 cs'} : StepFrame b sp obj c i d d1 cs cs1 → checkStop c d1 cs1 = .ok false →
+      Run b sp obj c (i + 1) k d1 d' cs1 cs' → Run b sp obj c i k d d' cs cs'
 
-theorem Run.lt {sp : Space} {obj : Obj} {c : Call} {i k : Nat} {d d' : DState σ} {cs cs' : CState}
-    (r : Run sp obj c i k d d' cs cs') : i < k := by
+theorem Run.lt {b : Backend σ} {sp : Space} {obj : Obj} {c : Call} {i k : Nat} {d d' : DState σ} {cs cs' : CState}
+    (r : Run b sp obj c i k d d' cs cs') : i < k := by
   induction r with
   | last _ => omega
   | cons _ _ _ ih => omega
@@ -25,7 +25,7 @@ theorem searchLoop_run {b : Backend σ} {sp : Space} {obj : Obj} {c : Call} :
     cs.nInitSearch = min i cs.nInitsNorm → i + fuel ≤ c.nIter →
     searchLoop b sp obj c fuel i d cs = .ok (d', cs', k) →
     (fuel = 0 ∧ k = i ∧ d' = d ∧ cs' = cs) ∨
-    (0 < fuel ∧ Run sp obj c i k d d' cs cs' ∧ k ≤ i + fuel ∧ (k < i + fuel → checkStop c d' cs' = .ok true)) := by
+    (0 < fuel ∧ Run b sp obj c i k d d' cs cs' ∧ k ≤ i + fuel ∧ (k < i + fuel → checkStop c d' cs' = .ok true)) := by
   intro fuel
   induction fuel with
   | zero =>
@@ -92,8 +92,8 @@ structure Traj (sp : Space) (obj : Obj) (c : Call) (i k : Nat) (d d' : DState σ
 
 theorem sumQ_cons (x : Rat) (xs : List Rat) : sumQ (x :: xs) = x + sumQ xs := rfl
 
-theorem Run.traj {sp : Space} {obj : Obj} {c : Call} {i k : Nat} {d d' : DState σ} {cs cs' : CState}
-    (r : Run sp obj c i k d d' cs cs') : ∃ tr, Traj sp obj c i k d d' cs cs' tr := by
+theorem Run.traj {b : Backend σ} {sp : Space} {obj : Obj} {c : Call} {i k : Nat} {d d' : DState σ} {cs cs' : CState}
+    (r : Run b sp obj c i k d d' cs cs') : ∃ tr, Traj sp obj c i k d d' cs cs' tr := by
   induction r with
   | @last i d d1 cs cs1 sf =>
     obtain ⟨p, v, e, f, _⟩ := sf.facts
@@ -124,8 +124,8 @@ theorem Run.traj {sp : Space} {obj : Obj} {c : Call} {i k : Nat} {d d' : DState 
               · exact T.values t h }
 
 /-- the stop checks along a run: false after every proper prefix of the trajectory -/
-theorem Run.prefix_checks {sp : Space} {obj : Obj} {c : Call} {i k : Nat} {d d' : DState σ} {cs cs' : CState}
-    (r : Run sp obj c i k d d' cs cs') :
+theorem Run.prefix_checks {b : Backend σ} {sp : Space} {obj : Obj} {c : Call} {i k : Nat} {d d' : DState σ} {cs cs' : CState}
+    (r : Run b sp obj c i k d d' cs cs') :
     ∃ tr, Traj sp obj c i k d d' cs cs' tr ∧
       ∀ j, 0 < j → j < tr.length →
         ∃ dj csj, Traj sp obj c i (i + j) d dj cs csj (tr.take j) ∧ checkStop c dj csj = .ok false := by
@@ -223,15 +223,15 @@ theorem searchCall_shape {b : Backend σ} {sp : Space} {obj : Obj} {c : Call} {d
 
 /-- invariants along a run: if `P` is preserved by every step and yields `Q` for the step's record, then `P` holds at the
     end and `Q` holds for every record of the trajectory -/
-theorem Run.traj_inv {sp : Space} {obj : Obj} {c : Call} (P : DState σ → CState → Prop) (Q : StepRec → Prop)
+theorem Run.traj_inv {b : Backend σ} {sp : Space} {obj : Obj} {c : Call} (P : DState σ → CState → Prop) (Q : StepRec → Prop)
     (hstep : ∀ i (d d1 : DState σ) (cs cs1 : CState) p v e, P d cs → StepFacts sp obj c i d d1 cs cs1 p v e →
-      P d1 cs1 ∧ Q (p, v, e))
-    {i k : Nat} {d d' : DState σ} {cs cs' : CState} (r : Run sp obj c i k d d' cs cs') (h0 : P d cs) :
+      BStep b (i < cs.nInitsNorm) d.bst d1.bst p e.res.score → P d1 cs1 ∧ Q (p, v, e))
+    {i k : Nat} {d d' : DState σ} {cs cs' : CState} (r : Run b sp obj c i k d d' cs cs') (h0 : P d cs) :
     ∃ tr, Traj sp obj c i k d d' cs cs' tr ∧ P d' cs' ∧ ∀ t ∈ tr, Q t := by
   induction r with
   | @last i d d1 cs cs1 sf =>
-    obtain ⟨p, v, e, f, _⟩ := sf.facts
-    obtain ⟨hP, hQ⟩ := hstep i d d1 cs cs1 p v e h0 f
+    obtain ⟨p, v, e, f, _, hbs⟩ := sf.facts
+    obtain ⟨hP, hQ⟩ := hstep i d d1 cs cs1 p v e h0 f hbs
     refine ⟨[(p, v, e)], ?_, hP, by intro t ht; simp at ht; subst ht; exact hQ⟩
     exact { len := by simp, pos := by omega
             rows := by simp [f.rows, StepRec.eval, StepRec.value], posL := by simp [f.posL, StepRec.pos]
@@ -240,8 +240,8 @@ theorem Run.traj_inv {sp : Space} {obj : Obj} {c : Call} (P : DState σ → CSta
             pbar := by simp [pbarFold, f.pbar, StepRec.score, StepRec.pos], stop := f.stop
             values := by intro t ht; simp at ht; subst ht; exact f.hv }
   | @cons i k d d1 d' cs cs1 cs' sf _ run ih =>
-    obtain ⟨p, v, e, f, _⟩ := sf.facts
-    obtain ⟨hP, hQ⟩ := hstep i d d1 cs cs1 p v e h0 f
+    obtain ⟨p, v, e, f, _, hbs⟩ := sf.facts
+    obtain ⟨hP, hQ⟩ := hstep i d d1 cs cs1 p v e h0 f hbs
     obtain ⟨tr, T, hP', hQ'⟩ := ih hP
     have hlt := run.lt
     refine ⟨(p, v, e) :: tr, ?_, hP', ?_⟩
@@ -267,7 +267,7 @@ theorem Run.traj_inv {sp : Space} {obj : Obj} {c : Call} (P : DState σ → CSta
 theorem searchCall_inv {b : Backend σ} {sp : Space} {obj : Obj} {c : Call} {d d' : DState σ} {r : CallResult}
     (P : DState σ → CState → Prop) (Q : StepRec → Prop)
     (hstep : ∀ i (d d1 : DState σ) (cs cs1 : CState) p v e, P d cs → StepFacts sp obj c i d d1 cs cs1 p v e →
-      P d1 cs1 ∧ Q (p, v, e))
+      BStep b (i < cs.nInitsNorm) d.bst d1.bst p e.res.score → P d1 cs1 ∧ Q (p, v, e))
     (h : searchCall b sp obj c d = .ok (d', r)) (hn : 0 < c.nIter)
     (h0 : ∀ cs, initSearch sp c d = .ok cs → P d cs) :
     ∃ cs d1 cs1 tr, initSearch sp c d = .ok cs ∧ finishSearch sp c d1 cs1 r.steps = .ok (d', r) ∧
@@ -279,5 +279,33 @@ theorem searchCall_inv {b : Backend σ} {sp : Space} {obj : Obj} {c : Call} {d d
   · omega
   · obtain ⟨tr, T, hP, hQ⟩ := run.traj_inv P Q hstep (h0 cs hcs)
     exact ⟨cs, d1, cs1, tr, hcs, by rw [hsteps]; exact hfin, by rw [hsteps]; exact T, hP, hQ⟩
+
+/-- invariants indexed by the step number -/
+theorem Run.traj_inv_idx {b : Backend σ} {sp : Space} {obj : Obj} {c : Call} (P : Nat → DState σ → CState → Prop)
+    (hstep : ∀ i (d d1 : DState σ) (cs cs1 : CState) p v e, P i d cs → i < c.nIter → StepFacts sp obj c i d d1 cs cs1 p v e →
+      BStep b (i < cs.nInitsNorm) d.bst d1.bst p e.res.score → P (i + 1) d1 cs1)
+    {i k : Nat} {d d' : DState σ} {cs cs' : CState} (r : Run b sp obj c i k d d' cs cs') (h0 : P i d cs) : P k d' cs' := by
+  induction r with
+  | @last i d d1 cs cs1 sf =>
+    obtain ⟨p, v, e, f, _, hbs⟩ := sf.facts
+    exact hstep i d d1 cs cs1 p v e h0 sf.lt f hbs
+  | @cons i k d d1 d' cs cs1 cs' sf _ run ih =>
+    obtain ⟨p, v, e, f, _, hbs⟩ := sf.facts
+    exact ih (hstep i d d1 cs cs1 p v e h0 sf.lt f hbs)
+
+theorem searchCall_inv_idx {b : Backend σ} {sp : Space} {obj : Obj} {c : Call} {d d' : DState σ} {r : CallResult}
+    (P : Nat → DState σ → CState → Prop)
+    (hstep : ∀ i (d d1 : DState σ) (cs cs1 : CState) p v e, P i d cs → i < c.nIter → StepFacts sp obj c i d d1 cs cs1 p v e →
+      BStep b (i < cs.nInitsNorm) d.bst d1.bst p e.res.score → P (i + 1) d1 cs1)
+    (h : searchCall b sp obj c d = .ok (d', r)) (hn : 0 < c.nIter)
+    (h0 : ∀ cs, initSearch sp c d = .ok cs → P 0 d cs) :
+    ∃ cs d1 cs1, initSearch sp c d = .ok cs ∧ finishSearch sp c d1 cs1 r.steps = .ok (d', r) ∧ P r.steps d1 cs1 := by
+  obtain ⟨cs, d1, cs1, steps, hcs, hx, hfin⟩ := searchCall_parts h
+  obtain ⟨h0', _⟩ := initSearch_ok hcs
+  have hsteps : r.steps = steps := (finishSearch_ok hfin).2.2.2.2.2.2.2.2.2.2.2.2.1
+  rcases searchLoop_run c.nIter 0 d cs d1 cs1 steps (by rw [h0']; omega) (by omega) hx with ⟨hf, _⟩ | ⟨_, run, _, _⟩
+  · omega
+  · have := run.traj_inv_idx P hstep (h0 cs hcs)
+    exact ⟨cs, d1, cs1, hcs, by rw [hsteps]; exact hfin, by rw [hsteps]; exact this⟩
 
 end GFO
